@@ -902,6 +902,7 @@ func ruleSkipFlags(c *Ctx) []Ob {
 	// strictly under the DefaultInitializer type assertion
 	if fn := c.SSA[pkgDefs].Func("DoResolveFields"); fn != nil {
 		found, good := false, true
+		wrongIdx := ""
 		for _, b := range fn.Blocks {
 			for _, ins := range b.Instrs {
 				call, ok := ins.(*ssa.Call)
@@ -918,6 +919,14 @@ func ruleSkipFlags(c *Ctx) []Ob {
 					continue
 				}
 				found = true
+				// the default belongs to the field being described: it is looked up with that field's own reflect index
+				if len(call.Call.Args) >= 2 {
+					ap := path(call.Call.Args[1])
+					if !strings.HasSuffix(ap, ".Index") {
+						good = false
+						wrongIdx = "the default value is looked up with " + ap + " instead of the Index of the struct field being described (defaults would be attached to other fields when declaration order and id order differ); "
+					}
+				}
 				// receiver: phi/alloc holding `mem`; every non-zero definition must be under the ok edge of the type assertion
 				var defs []ssa.Value
 				recv := call.Call.Args[0]
@@ -966,7 +975,7 @@ func ruleSkipFlags(c *Ctx) []Ob {
 				}
 			}
 		}
-		s.check(found && good, "defaults-only-with-initialiser", c.Pos(fn.Pos()), "default values are recorded only for types implementing the default initialiser", "the resolver records default values for types without a default initialiser: zero-valued optional fields of such types would be dropped by the encoder")
+		s.check(found && good, "defaults-only-with-initialiser", c.Pos(fn.Pos()), "default values are recorded only for types implementing the default initialiser", wrongIdx+"the resolver records default values for types without a default initialiser (or not from the described field): zero-valued optional fields of such types would be dropped by the encoder")
 	}
 	return s.obs
 }
